@@ -1,5 +1,5 @@
 /- PathSM: every helper only appends to the output list (membership is monotone). -/
-import MtxVerif.Lemmas.C18PathSM
+import MtxVerif.Lemmas.C18PathSM_Step
 
 namespace MtxVerif.PathSM
 
@@ -133,5 +133,170 @@ theorem mem_pubAttach (p : Nat) (ok : Bool) (h : x ∈ w.out) : x ∈ (pubAttach
     split
     · simp [onDemandPublisherScheduleClose, h2]
     · exact h2
+
+/-! ### teardown: a step that replaces or drops the stream closes every reader attached before it -/
+
+theorem consume_stream (w : W) : (consumeOnHoldRequests w).s.stream = w.s.stream := by
+  obtain ⟨s1, R, e⟩ := consume_rd w
+  rw [e]; exact R.f5
+
+theorem pubAttach_stream_aa (p : Nat) (ok : Bool) (w : W) (haa : w.s.conf.alwaysAvailable = true) :
+    (pubAttach p ok w).s.stream = w.s.stream := by
+  unfold pubAttach
+  dsimp only
+  cases ok
+  · simp [haa, subErrCleanup_s]
+  · simp only [Bool.not_true, Bool.false_eq_true, if_false, emit_s, consume_stream, haa, if_true]
+    (repeat' split) <;> simp [newSub_s, setOnline_s, onDemandPublisherScheduleClose]
+
+theorem srcReady_stream_aa (ok : Bool) (w : W) (haa : w.s.conf.alwaysAvailable = true) :
+    (doSourceStaticSetReady ok w).s.stream = w.s.stream := by
+  unfold doSourceStaticSetReady
+  dsimp only
+  cases ok
+  · simp [haa, subErrCleanup_s]
+  · simp only [Bool.not_true, Bool.false_eq_true, if_false, emit_s, consume_stream, haa, if_true]
+    (repeat' split) <;> simp [newSub_s, setOnline_s, onDemandStaticSourceScheduleClose]
+
+theorem teardown_stepW (e : Event) (w : W) (h : Inv w.s) (sid : Nat) (hs : w.s.stream = some sid)
+    (hch : (stepW e w).s.stream ≠ some sid) :
+    ∀ r ∈ w.s.readers, Out.readerClosed r ∈ (stepW e w).out := by
+  intro r hr
+  have hsome : w.s.stream.isSome = true := by rw [hs]; rfl
+  unfold stepW at hch ⊢
+  split at hch
+  · exact absurd hs hch
+  split at hch
+  · exfalso; apply hch; unfold stepClosed; split <;> simp [hs]
+  rename_i hp hcl
+  have hc : w.s.closed = false := by simpa using hcl
+  rw [if_neg hp, if_neg hcl]
+  split at hch
+  · -- describe
+    exfalso; apply hch; rw [closeCheck_s]; unfold doDescribe
+    (repeat' split) <;> simp [replyStream_s, holdDemand_s, hs]
+  · -- addPublisher
+    rename_i p ok
+    simp only [closeCheck_s] at hch
+    apply mem_closeCheck
+    unfold doAddPublisher at hch ⊢
+    split at hch
+    · exact absurd hs hch
+    split at hch
+    · exact absurd hs hch
+    rename_i hk hb
+    rw [if_neg hk, if_neg hb]
+    have hk' : w.s.conf.kind = .publisher := by simpa using hk
+    by_cases haa : w.s.conf.alwaysAvailable = true
+    · exfalso; apply hch
+      obtain ⟨_, _, _, e4⟩ := pubOverride_post w h hc hk'
+      rw [pubAttach_stream_aa _ _ _ (by rw [e4]; exact haa)]
+      unfold pubOverride; split
+      · exact hs
+      · simp [executeRemovePublisher_s, haa, hs]
+      · simp [panic, hs]
+    · have haa' : w.s.conf.alwaysAvailable = false := by simpa using haa
+      apply mem_pubAttach
+      unfold pubOverride
+      split
+      · rename_i hsrc
+        have := h.c1 haa' hsome hk'
+        rw [hsrc] at this; cases this
+      · unfold executeRemovePublisher
+        dsimp only
+        rw [if_neg (by simpa using haa)]
+        exact mem_upd _ (setNotAvailable_closes r hr)
+      · rename_i x hx hne
+        exfalso
+        rcases h.kPub hk' with h0 | ⟨q, hq⟩
+        · rw [h0] at hne; cases hne
+        · rw [hq] at hne; injection hne with e; exact hx q e.symm
+  · -- removePublisher
+    simp only [closeCheck_s] at hch
+    apply mem_closeCheck
+    unfold doRemovePublisher at hch ⊢
+    split at hch
+    · rename_i hsrc
+      rw [if_pos hsrc]
+      by_cases haa : w.s.conf.alwaysAvailable = true
+      · exfalso; apply hch; simp [executeRemovePublisher_s, haa, hs]
+      · unfold executeRemovePublisher
+        dsimp only
+        rw [if_neg haa]
+        exact mem_upd _ (setNotAvailable_closes r hr)
+    · exact absurd hs hch
+  · -- addReader
+    exfalso; apply hch; rw [closeCheck_s]; unfold doAddReader
+    (repeat' split) <;> simp [holdDemand_s, (addReaderPost_rd _ _ _).f5, hs]
+  · -- removeReader
+    exfalso; apply hch; rw [closeCheck_s]
+    unfold doRemoveReader onDemandStaticSourceScheduleClose onDemandPublisherScheduleClose
+    dsimp only
+    (repeat' split) <;> simp [hs]
+  · -- srcReady
+    split at hch
+    · rename_i ok hg
+      exfalso
+      by_cases haa : w.s.conf.alwaysAvailable = true
+      · apply hch; rw [srcReady_stream_aa _ _ haa]; exact hs
+      · have haa' : w.s.conf.alwaysAvailable = false := by simpa using haa
+        have hks : w.s.conf.kind = .static := h.kStatic.mpr hg.1
+        have := h.c2 haa' hsome (by rw [hks]; decide)
+        rw [this] at hg; simp at hg
+    · exact absurd hs hch
+  · -- srcNotReady
+    split at hch
+    · rename_i hg
+      rw [if_pos hg]
+      simp only [closeCheck_s] at hch
+      apply mem_closeCheck
+      unfold doSourceStaticSetNotReady at hch ⊢
+      dsimp only at hch ⊢
+      by_cases haa : w.s.conf.alwaysAvailable = true
+      · exfalso; apply hch
+        simp only [haa, if_true]
+        (repeat' split) <;> simp [setOffline_s, startOffline_s, onDemandStaticSourceStop_s, hs]
+      · rw [if_neg haa]
+        have h1 : Out.readerClosed r ∈ (upd (fun s => { s with srcSub := none, srcUp := false }) (setNotAvailable w)).out :=
+          mem_upd _ (setNotAvailable_closes r hr)
+        split
+        · exact mem_onDemandStaticSourceStop h1
+        · exact h1
+    · exact absurd hs hch
+  · -- timers
+    split at hch
+    · rename_i t ha
+      rw [if_pos ha]
+      cases t <;> unfold fireTimer at hch ⊢ <;> dsimp only at hch ⊢
+      · exfalso; apply hch; rw [closeCheck_s]
+        simp [doOnDemandStaticSourceReadyTimer, onDemandStaticSourceStop_s, failHolds_s, hs]
+      · apply mem_closeCheck
+        unfold doOnDemandStaticSourceCloseTimer
+        split
+        · exfalso; apply hch; rw [closeCheck_s]; unfold doOnDemandStaticSourceCloseTimer
+          rename_i haa
+          simp only [upd_s] at haa
+          simp [haa, panic, hs]
+        · apply mem_onDemandStaticSourceStop
+          exact setNotAvailable_closes (w := upd _ w) r hr
+      · exfalso; apply hch; rw [closeCheck_s]
+        simp [doOnDemandPublisherReadyTimer, onDemandPublisherStop_s, failHolds_s, hs]
+      · exfalso; apply hch
+        simp [doOnDemandPublisherCloseTimer, onDemandPublisherStop_s, hs]
+    · exact absurd hs hch
+  · -- reloadConf
+    exfalso; apply hch; split <;> simp [hs]
+  · -- close
+    unfold doClose
+    dsimp only
+    rw [if_pos hsome]
+    apply mem_upd
+    apply setNotAvailable_closes
+    have e1 : ∀ w1 : W, (if w.s.hkDemand = true then emit (Out.hook Hook.demand false) (upd (fun s => { s with hkDemand := false }) w1) else w1).s.readers = w1.s.readers := by
+      intro w1; split <;> rfl
+    rw [e1, closeSource_s]
+    split <;> simp [srcStop_s, failHolds_s, hr]
+  · exact absurd hs hch
+  · exact absurd hs hch
 
 end MtxVerif.PathSM
